@@ -353,17 +353,6 @@ def kf_toml_leading_escaped_quote(w: Dict[str, Any]) -> bool:
                                   (t.startswith('""') and w.get("observed") == t[2:-2]))
 
 
-def kf_ini_percent_interpolation(w: Dict[str, Any]) -> bool:
-    """Python twin of ConfigQuote.tla KF_IniPercent: a % in an INI value goes through configparser's interpolation: a
-    lone % aborts the run with configparser's message, %% is read back as %."""
-    t = w.get("text") or ""
-    if w.get("kind") != "quote" or w.get("fmt") not in ("cfg", "ini") or "%" not in t:
-        return False
-    if w.get("err"):
-        return "must be followed by" in w["err"]
-    return w.get("observed") == t.replace("%%", "%")
-
-
 def kf_empty_triple_quoted(w: Dict[str, Any]) -> bool:
     """Python twin of ConfigQuote.tla KF_EmptyTripleQuoted: '''''' / \"\"\"\"\"\" (the empty text) is not recognised as
     quoted and comes back as the six quote characters."""
@@ -739,7 +728,6 @@ def run(ctx: Ctx) -> int:
     ctx.register_matcher("ini-file-read-as-toml", kf_ini_read_as_toml)
     ctx.register_matcher("toml-leading-escaped-quote", kf_toml_leading_escaped_quote)
     ctx.register_matcher("empty-triple-quoted", kf_empty_triple_quoted)
-    ctx.register_matcher("ini-percent-interpolation", kf_ini_percent_interpolation)
     n0 = part_history(ctx)              # first: its child processes are forked from a parent that has parsed nothing
     n1 = part_merge(ctx, rng)
     n2 = part_quote(ctx, rng)
